@@ -32,7 +32,8 @@ CONSTANTS
     MaxNodes,    \* builder: maximal number of nodes of all items on the stack
     MaxDepth,    \* builder: maximal nesting depth of an item
     MaxArr,      \* builder: maximal array length
-    MaxPairs     \* builder: maximal number of map pairs
+    MaxPairs,    \* builder: maximal number of map pairs
+    AllowWrap    \* builder: whether bstr .cbor wrapping (WrapBstr) is enabled
 
 VARIABLE stack   \* the builder's stack of data items; a state with one item is a finished item
 
@@ -81,6 +82,9 @@ BStr(b)     == V("bstr", <<>>, b, <<>>)
 TStr(b)     == V("tstr", <<>>, b, <<>>)
 Arr(kids)   == V("arr", <<>>, <<>>, kids)
 Tagged(m, v) == V("tag", m, <<>>, <<v>>)
+\* bstr .cbor v (cbor.Bstr[T]): in the CBOR data model a byte string holding Enc(v); kept as a node of
+\* its own in the builder so that the script records the convention and sizes stay bounded (see Plain)
+Wrapped(v)  == V("wrap", <<>>, <<>>, <<v>>)
 False       == V("false", <<>>, <<>>, <<>>)
 True        == V("true", <<>>, <<>>, <<>>)
 Null        == V("null", <<>>, <<>>, <<>>)
@@ -117,6 +121,7 @@ Enc(v) ==
       [] v.t = "arr"   -> Hd(4, Mag(Len(v.kids))) \o EncSeq(v.kids)
       [] v.t = "map"   -> Hd(5, Mag(Len(v.kids) \div 2)) \o EncSeq(SortPairs(v.kids))
       [] v.t = "tag"   -> Hd(6, v.n) \o Enc(v.kids[1])
+      [] v.t = "wrap"  -> LET c == Enc(v.kids[1]) IN Hd(2, Mag(Len(c))) \o c
       [] v.t = "false" -> <<244>>
       [] v.t = "true"  -> <<245>>
       [] v.t = "null"  -> <<246>>
@@ -127,8 +132,13 @@ MkMap(kids) == V("map", <<>>, <<>>, SortPairs(kids))
 Keys(kids) == {kids[2 * i - 1] : i \in 1..(Len(kids) \div 2)}
 DistinctKeys(kids) == Cardinality(Keys(kids)) = Len(kids) \div 2
 
-\* bstr .cbor v  (cbor.Bstr[T]): a byte string holding the encoding of v
-Wrap(v) == BStr(Enc(v))
+\* the plain data-model item of an item with bstr .cbor nodes: each is the byte string of its content
+RECURSIVE Plain(_)
+Plain(v) ==
+    IF Len(v.kids) = 0 THEN v
+    ELSE IF v.t = "wrap" THEN BStr(Enc(v.kids[1]))
+    ELSE IF v.t = "map" THEN MkMap([i \in 1..Len(v.kids) |-> Plain(v.kids[i])])
+    ELSE V(v.t, v.n, v.b, [i \in 1..Len(v.kids) |-> Plain(v.kids[i])])
 
 -----------------------------------------------------------------------------
 (* Reading a head *)
@@ -372,9 +382,10 @@ WrapTag(n) ==
     /\ stack' = Replace(1, Tagged(n, stack[Len(stack)]))
 
 WrapBstr ==
-    /\ Len(stack) >= 1
-    /\ stack[Len(stack)].t # "bstr"           \* one level of wrapping
-    /\ stack' = Replace(1, Wrap(stack[Len(stack)]))
+    /\ AllowWrap
+    /\ Len(stack) >= 1 /\ Room
+    /\ Depth(stack[Len(stack)]) < MaxDepth
+    /\ stack' = Replace(1, Wrapped(stack[Len(stack)]))
 
 Next ==
     \/ \E x \in Leaves : Push(x)
@@ -397,7 +408,7 @@ TypeOK == Len(stack) <= MaxStack /\ NodesSeq(stack) <= MaxNodes
 
 \* decode inverts encode, consuming everything
 RoundTrip ==
-    HasTop => LET e == TopEnc r == Dec(e) IN r.ok /\ r.v = Top /\ r.next = Len(e) + 1
+    HasTop => LET e == TopEnc r == Dec(e) IN r.ok /\ r.v = Plain(Top) /\ r.next = Len(e) + 1
 
 \* encodings are self-delimiting: the item length of Enc(v) followed by anything is Len(Enc(v))
 Junk == {<<>>, <<0>>, <<255>>, <<159, 1>>, <<24>>, <<246, 246>>}
@@ -413,7 +424,7 @@ NoItemIsAPrefix ==
 \* distinct items have distinct, prefix-incomparable encodings
 PrefixFree ==
     \A i, j \in 1..Len(stack) :
-        (i # j /\ stack[i] # stack[j]) => ~IsPrefix(Enc(stack[i]), Enc(stack[j]))
+        (i # j /\ Plain(stack[i]) # Plain(stack[j])) => ~IsPrefix(Enc(stack[i]), Enc(stack[j]))
 
 \* the encoder's output is canonical: minimal heads, map keys strictly increasing bytewise
 CanonicalEncoding == HasTop => Canonical(TopEnc)
@@ -434,5 +445,5 @@ HeadIsShortest ==
                                  [] OTHER -> 9)
 
 \* a wrapped item is a byte string whose content is exactly one item
-WrapIsExact == HasTop => WrappedExact(Enc(Wrap(Top)))
+WrapIsExact == HasTop => WrappedExact(Enc(Wrapped(Top)))
 =============================================================================
